@@ -31,6 +31,10 @@ def run(ctx):
                 jobs.append((exe, [2, alg, 3, 0], "%s-k%dd%dm%d" % ((be,) + tr), False))
     jobs.sort(key=lambda j: not j[3])
     common.parallel(lambda j: common.run_harness(ctx, j[0], j[1], label=j[2]), jobs)
+    ADW = ["aead-ad:0", "aead-ad:1", "aead-ad:2", "siv-ad:0", "siv-ad:1", "siv-ad:2", "isap-ad:0", "isap-ad:1", "isap-ad:2"]
+    common.mid_lengths(ctx, ADW, ("asm", "c64", "c32", "dxor", "generic") if ctx.thorough else ("asm", "c32"))
+    if ctx.thorough:
+        common.huge_lengths(ctx, ADW, jobs=4)
     ctx.assumptions += [
         "a 2^-128 tag collision does not occur among the enumerated forgeries (it would be deterministic)",
         "the plaintext-wipe oracle is applied to the one-shot families (plain, masked, SIV, ISAP) as the property states; the incremental interface is judged on its finalize result only",
